@@ -7,14 +7,28 @@ package ruler
 // act, C07); an APPROVED verdict creates the only pending approval (tokroot) for that key: the signing root of exactly
 // the submitted data (C05, C08, C03 approve-before-sign). Nothing more is promised about the verdicts.
 
+//@ spec locking(action string) bool = action == ActionSign || action == ActionSignBeaconProposal || action == ActionSignBeaconAttestation
+//@ spec wellformedData(action string, rd *RulesData) bool = (action == ActionSignBeaconAttestation && hastype(rd.Data, "*rules.SignBeaconAttestationData") ==> unbox(rd.Data, "*rules.SignBeaconAttestationData") != nil && unbox(rd.Data, "*rules.SignBeaconAttestationData").Source != nil && unbox(rd.Data, "*rules.SignBeaconAttestationData").Target != nil) && (action == ActionSignBeaconProposal && hastype(rd.Data, "*rules.SignBeaconProposalData") ==> unbox(rd.Data, "*rules.SignBeaconProposalData") != nil) && (action == ActionSign && hastype(rd.Data, "*rules.SignData") ==> unbox(rd.Data, "*rules.SignData") != nil)
+
+// Implementation obligations (services/ruler/golang is proved to refine them) and, marked aux-ensures, the bookkeeping of
+// the auxiliary variable tokroot: an approval creates the only pending approval for that key. The aux clauses are a
+// definition (they assign a history variable from the arguments and results of the call; [distinct] makes the
+// assignment well defined) and are not obligations of an implementation.
 //@ iface Service.RunRules(self, ctx, credentials, action, data)
 //@ requires [checked] credentials != nil ==> (forall i int :: 0 <= i && i < len(data) && data[i] != nil ==> ckey(credentials.Client, data[i].WalletName, data[i].AccountName, action) in checkedset || wkey(credentials.Client, data[i].WalletName, action) in checkedset)
-//@ modifies tokroot, db
+//@ requires [wellformed] forall j int :: 0 <= j && j < len(data) && data[j] != nil ==> wellformedData(action, data[j])
+//@ requires [unlocked] !prelocked && (forall k [48]byte :: !held[k])
+//@ modifies tokroot, db, held, prelocked
+//@ ensures [released] !prelocked && (forall k [48]byte :: !held[k])
 //@ ensures [len] (len(data) == 0 ==> len(result) == 1 && result[0] == rules.FAILED) && (len(data) > 0 ==> len(result) == len(data))
 //@ ensures [fresh] fresh(result)
 //@ ensures [verdicts] forall i int :: 0 <= i && i < len(result) ==> result[i] == rules.UNKNOWN || result[i] == rules.APPROVED || result[i] == rules.DENIED || result[i] == rules.FAILED
-//@ ensures [att] action == ActionSignBeaconAttestation ==> (forall i int :: 0 <= i && i < len(data) && result[i] == rules.APPROVED ==> data[i] != nil && hastype(data[i].Data, "*rules.SignBeaconAttestationData") && bytes(data[i].PubKey) in tokroot && tokroot[bytes(data[i].PubKey)] == attRootOf(unbox(data[i].Data, "*rules.SignBeaconAttestationData")))
-//@ ensures [prop] action == ActionSignBeaconProposal ==> (forall i int :: 0 <= i && i < len(data) && result[i] == rules.APPROVED ==> data[i] != nil && hastype(data[i].Data, "*rules.SignBeaconProposalData") && bytes(data[i].PubKey) in tokroot && tokroot[bytes(data[i].PubKey)] == propRootOf(unbox(data[i].Data, "*rules.SignBeaconProposalData")))
-//@ ensures [gen] action == ActionSign ==> (forall i int :: 0 <= i && i < len(data) && result[i] == rules.APPROVED ==> data[i] != nil && hastype(data[i].Data, "*rules.SignData") && bytes(data[i].PubKey) in tokroot && tokroot[bytes(data[i].PubKey)] == genRootOf(unbox(data[i].Data, "*rules.SignData")) && prefix4(unbox(data[i].Data, "*rules.SignData").Domain) != ATT && prefix4(unbox(data[i].Data, "*rules.SignData").Domain) != PROP)
-//@ ensures [distinct] (action == ActionSign || action == ActionSignBeaconProposal || action == ActionSignBeaconAttestation) ==> (forall i int, j int :: 0 <= i && i < j && j < len(data) && result[i] == rules.APPROVED && result[j] == rules.APPROVED ==> bytes(data[i].PubKey) != bytes(data[j].PubKey))
-//@ ensures [keep] forall k Bytes :: (forall i int :: !(0 <= i && i < len(data) && data[i] != nil && result[i] == rules.APPROVED && bytes(data[i].PubKey) == k)) ==> ((k in tokroot) <==> old(k in tokroot)) && tokroot[k] == old(tokroot[k])
+//@ ensures [nonnil] forall i int :: 0 <= i && i < len(data) && result[i] == rules.APPROVED ==> data[i] != nil
+//@ ensures [att-type] action == ActionSignBeaconAttestation ==> (forall i int :: 0 <= i && i < len(data) && result[i] == rules.APPROVED ==> hastype(data[i].Data, "*rules.SignBeaconAttestationData"))
+//@ ensures [prop-type] action == ActionSignBeaconProposal ==> (forall i int :: 0 <= i && i < len(data) && result[i] == rules.APPROVED ==> hastype(data[i].Data, "*rules.SignBeaconProposalData"))
+//@ ensures [gen-type] action == ActionSign ==> (forall i int :: 0 <= i && i < len(data) && result[i] == rules.APPROVED ==> hastype(data[i].Data, "*rules.SignData") && prefix4(unbox(data[i].Data, "*rules.SignData").Domain) != ATT && prefix4(unbox(data[i].Data, "*rules.SignData").Domain) != PROP)
+//@ ensures [distinct] locking(action) ==> (forall i int, j int :: 0 <= i && i < j && j < len(data) && result[i] == rules.APPROVED && result[j] == rules.APPROVED ==> bytes(data[i].PubKey) != bytes(data[j].PubKey))
+//@ aux-ensures [att] action == ActionSignBeaconAttestation ==> (forall i int :: 0 <= i && i < len(data) && result[i] == rules.APPROVED ==> bytes(data[i].PubKey) in tokroot && tokroot[bytes(data[i].PubKey)] == attRootOf(unbox(data[i].Data, "*rules.SignBeaconAttestationData")))
+//@ aux-ensures [prop] action == ActionSignBeaconProposal ==> (forall i int :: 0 <= i && i < len(data) && result[i] == rules.APPROVED ==> bytes(data[i].PubKey) in tokroot && tokroot[bytes(data[i].PubKey)] == propRootOf(unbox(data[i].Data, "*rules.SignBeaconProposalData")))
+//@ aux-ensures [gen] action == ActionSign ==> (forall i int :: 0 <= i && i < len(data) && result[i] == rules.APPROVED ==> bytes(data[i].PubKey) in tokroot && tokroot[bytes(data[i].PubKey)] == genRootOf(unbox(data[i].Data, "*rules.SignData")))
+//@ aux-ensures [keep] forall k Bytes :: (forall i int :: !(0 <= i && i < len(data) && data[i] != nil && result[i] == rules.APPROVED && bytes(data[i].PubKey) == k)) ==> ((k in tokroot) <==> old(k in tokroot)) && tokroot[k] == old(tokroot[k])
